@@ -49,8 +49,8 @@ func (c *vC10Cache) Set(_ context.Context, key string, value []byte, ttl time.Du
 }
 
 var (
-	vC10Kind   int   // 0: no freshness information, 1: max-age, 2: no-store
-	vC10MaxAge int64 // seconds
+	vC10Kind   int   // 0: no freshness information, 1: explicit expiry, 2: no-store
+	vC10MaxAge int64 // seconds until the expiry the response declares (zero or negative: already expired)
 	vC10Now    time.Time
 	vC10Calls  int
 )
@@ -80,7 +80,11 @@ func (vC10Origin) RoundTrip(*http.Request) (*http.Response, error) {
 		h.Set("Date", time.Now().UTC().Format(http.TimeFormat))
 		switch vC10Kind {
 		case 1:
-			h.Set("Cache-Control", fmt.Sprintf("max-age=%d", vC10MaxAge))
+			if vC10MaxAge >= 0 {
+				h.Set("Cache-Control", fmt.Sprintf("max-age=%d", vC10MaxAge))
+			} else { // an expiry date in the past
+				h.Set("Expires", time.Now().Add(time.Duration(vC10MaxAge)*time.Second).UTC().Format(http.TimeFormat))
+			}
 		case 2:
 			h.Set("Cache-Control", "no-store")
 		}
@@ -91,7 +95,7 @@ func (vC10Origin) RoundTrip(*http.Request) (*http.Response, error) {
 
 func VerifC10HTTPCache() {
 	vC10Kind = verifapi.NondetChoice("response.freshness", 3)
-	vC10MaxAge = verifapi.NondetIntRange("response.max_age", 1, 1<<24)
+	vC10MaxAge = verifapi.NondetIntRange("response.max_age", -(1 << 24), 1<<24)
 	vC10Calls = 0
 	var def time.Duration
 	if verifapi.NondetBool("default_ttl.set") {
@@ -111,6 +115,13 @@ func VerifC10HTTPCache() {
 	case 2:
 		verifapi.Assert("C10/httpcache/no-store-is-not-stored", cch.sets == 0)
 	case 1:
+		if vC10MaxAge <= 0 {
+			// the response is stale on arrival: it must not be stored at all (the cache back ends treat a
+			// non-positive TTL as "no expiry")
+			verifapi.Cover("already-expired")
+			verifapi.Assert("C10/httpcache/already-expired-response-is-not-stored", cch.sets == 0)
+			break
+		}
 		verifapi.Cover("explicit-freshness")
 		verifapi.Assert("C10/httpcache/stored-once", cch.sets == 1)
 		// never beyond the freshness lifetime the response declares, whatever default is configured
@@ -124,6 +135,8 @@ func VerifC10HTTPCache() {
 			verifapi.Assert("C10/httpcache/default-only-without-information", cch.sets == 1 && cch.ttl <= def && cch.ttl > def-5*time.Second)
 		}
 	}
+	// whatever is stored has a positive lifetime (a non-positive TTL means "never expires" in the back ends)
+	verifapi.Assert("C10/httpcache/stored-with-positive-ttl", cch.sets == 0 || cch.ttl > 0)
 	// a stored response is served without asking the origin again
 	if cch.sets == 1 {
 		resp2, err2 := rt.RoundTrip(req)
